@@ -69,12 +69,38 @@ func init() {
 					p.Spec = engine.Spec{Mode: "users", Concurrency: c, MaxDurationMS: 60000}
 				}
 				p.Spec.IgnoreDropped = true
-				p.Desc = fmt.Sprintf("mode=%s c=%d perTick=%d body=%s rendezvous=%v", mode, c, p.PerTick, p.Body, p.Rendezvous)
+				// output modes and far-away limits do not change how many workers there are
+				p.Spec.Verbose = r.IntN(3) == 0
+				if r.IntN(3) == 0 {
+					p.Spec.MaxIterations = []uint64{1 << 62, 1 << 63, 1<<63 + 1000, ^uint64(0)}[r.IntN(4)]
+				}
+				p.Desc = fmt.Sprintf("mode=%s c=%d perTick=%d body=%s rendezvous=%v verbose=%v max-iterations=%d", mode, c, p.PerTick, p.Body, p.Rendezvous, p.Spec.Verbose, p.Spec.MaxIterations)
 				cse := core.MkCase("C04", "run", i, seed, p)
 				cse.Race = true
 				cse.Procs = pick(r, 1, 2, 4, 16)
 				cse.TimeoutMS = 60000
 				cs = append(cs, cse)
+			}
+			// limits in the upper half of the uint64 range (often written to mean "no limit"): all workers usable
+			for i, lim := range []uint64{1 << 63, 1<<63 + 1000, ^uint64(0)} {
+				for j, mode := range []string{"users", "constant"} {
+					if tier == "quick" && j == 1 && i != 2 {
+						continue
+					}
+					c := pick(r, 2, 8, 64)
+					p := c04Params{Rendezvous: true, Body: "gated", PerTick: 2 * c}
+					p.Spec = engine.RateSpec(mode, p.PerTick, 10, c)
+					if mode == "users" {
+						p.Spec = engine.Spec{Mode: "users", Concurrency: c, MaxDurationMS: 60000}
+					}
+					p.Spec.IgnoreDropped, p.Spec.MaxIterations = true, lim
+					p.Desc = fmt.Sprintf("mode=%s c=%d perTick=%d body=gated rendezvous=true max-iterations=%d", mode, c, p.PerTick, lim)
+					cse := core.MkCase("C04", "run", 7500+i*2+j, seed, p)
+					cse.Race = (i+j)%2 == 0
+					cse.Procs = pick(r, 2, 16)
+					cse.TimeoutMS = 60000
+					cs = append(cs, cse)
+				}
 			}
 			// ticks far beyond 32 bits: every worker still gets its request
 			nhu := 3
@@ -255,7 +281,7 @@ func c04Run(c *core.Case, o *core.Outcome) {
 		select {
 		case <-opened:
 			o.AddObs("rendezvous_opened", 1)
-			o.Sig("lower:mode=%s:c=%d:tick=%s:procs=%d", p.Spec.Mode, cc, tickClass(p.PerTick, int(cc)), c.Procs)
+			o.Sig("lower:mode=%s:c=%d:tick=%s:procs=%d:verbose=%v:farlimit=%v", p.Spec.Mode, cc, tickClass(p.PerTick, int(cc)), c.Procs, p.Spec.Verbose, p.Spec.MaxIterations > 0)
 		default:
 			o.Inconc("run ended before the rendezvous opened (%s)", p.Desc)
 			return
